@@ -368,7 +368,12 @@ func _json(args ...interface{}) (interface{}, interface{}) {
 	if err != nil {
 		return args[0], false
 	}
-	result := args[2].(*jp.Expr).Get(obj)
+	jsonPath, ok := args[2].(*jp.Expr)
+	if !ok {
+		// An explicit argument (`a.json("x")`) is not a compiled path.
+		return args[0], false
+	}
+	result := jsonPath.Get(obj)
 
 	if len(result) < 1 {
 		return args[0], false
@@ -377,8 +382,12 @@ func _json(args ...interface{}) (interface{}, interface{}) {
 }
 
 func xml(args ...interface{}) (interface{}, interface{}) {
+	jsonPath, ok := args[2].(*jp.Expr)
+	if !ok {
+		return args[0], false
+	}
 	xmlString := stringOperand(args[1])
-	xmlPath := args[2].(*jp.Expr).String()
+	xmlPath := jsonPath.String()
 
 	// Try to base64 decode the XML string
 	base64Decoded, err := base64.StdEncoding.DecodeString(xmlString)
@@ -399,7 +408,16 @@ func xml(args ...interface{}) (interface{}, interface{}) {
 
 	value, ok := result[0].(string)
 	if !ok {
-		value = result[0].(map[string]interface{})["#text"].(string)
+		// An element with attributes keeps its character data under "#text"; an element
+		// that has only children (or anything else) has no text value to compare.
+		element, isMap := result[0].(map[string]interface{})
+		if !isMap {
+			return args[0], false
+		}
+		value, ok = element["#text"].(string)
+		if !ok {
+			return args[0], false
+		}
 	}
 	return args[0], value
 }
@@ -544,7 +562,12 @@ func redact(args ...interface{}) (interface{}, interface{}) {
 }
 
 func timeHelper(args ...interface{}) (interface{}, interface{}) {
-	timestamp := args[2].(time.Time).UnixNano() / int64(time.Millisecond)
+	t, ok := args[2].(time.Time)
+	if !ok {
+		// `now(5)`: the argument was not replaced by a point in time at compile time.
+		return args[0], false
+	}
+	timestamp := t.UnixNano() / int64(time.Millisecond)
 	return args[0], timestamp
 }
 
